@@ -568,3 +568,33 @@ mutant('L7-executed-not-published-on-conflict', ['C05'], [
 mutant('L2-mv-guard-live-across-reentrant-access', ['C05'], [
     (S, "            if let Some(mut written_transactions) = self.mv_memory.get_mut(location) &&\n                let Some(entry) = written_transactions.get_mut(&txid)\n            {\n                entry.estimate = true;\n            }", "            if let Some(mut written_transactions) = self.mv_memory.get_mut(location) &&\n                let Some(entry) = written_transactions.get_mut(&txid)\n            {\n                entry.estimate = self.mv_memory.contains_key(location);\n            }"),
 ], ['|L2|'])
+
+mutant('N1-timestamp-before-tx-lock', ['C05', 'C02', 'C15'], [
+    (S, "        let ts = self.scheduler_ctx.logical_timestamp();\n", ""),
+    (S, "        let incarnation = tx_version.incarnation;\n        let mut tx_state = self.tx_states[txid].lock();\n        let tx_result = self.tx_results[txid].lock();\n        if tx_state.status != TransactionStatus::Validating {", "        let incarnation = tx_version.incarnation;\n        let ts = self.scheduler_ctx.logical_timestamp();\n        let mut tx_state = self.tx_states[txid].lock();\n        let tx_result = self.tx_results[txid].lock();\n        if tx_state.status != TransactionStatus::Validating {"),
+], ['|N1|'])
+
+mutant('PAIR-publish-commit-writes-finality-cursor', ['C02', 'C15'], [
+    (CX, "    pub(super) fn publish_commit(&self, index: usize) {\n        self.committed.publish(index);", "    pub(super) fn publish_commit(&self, index: usize) {\n        self.finality.publish(index);"),
+], ['|PAIR|'])
+mutant('PAIR-unconfirmed-timestamp-reads-lower', ['C02', 'C15'], [
+    (CX, "        self.unconfirmed_timestamps[index].load(Ordering::Acquire)", "        self.lower_timestamps[index].load(Ordering::Acquire)"),
+], ['|PAIR|'])
+mutant('PAIR-is-blocked-uses-beneficiary-flag', ['C01'], [
+    (I, "        !self.blocking_txs.is_empty()\n    }\n}\n\nimpl<'a, DB> IncarnationDb", "        self.blocked_by_beneficiary\n    }\n}\n\nimpl<'a, DB> IncarnationDb"),
+], ['|PAIR|'])
+mutant('X6-finish-on-error-result', ['C01', 'C02'], [
+    (EX, "            Ok(result) => self.evm.db_mut().finish_incarnation(result.state()),\n            Err(_) => self.evm.db_mut().discard_incarnation(),", "            Ok(result) => self.evm.db_mut().finish_incarnation(result.state()),\n            Err(_) => self.evm.db_mut().finish_incarnation(&Default::default()),"),
+], ['|X6|'])
+mutant('X6-begin-does-not-set-version', ['C01'], [
+    (I, "        self.version = version;\n        self.read_set.clear();", "        let _ = version;\n        self.read_set.clear();"),
+], ['|X6|'])
+mutant('X6-record-execution-forwards-wrong-account', ['C07'], [
+    ('src/beneficiary.rs', "        let account = result.state().get(&self.address);\n        assert!(", "        let account = result.state().values().next();\n        assert!("),
+], ['|X6|'])
+mutant('T4-empty-account-classified-loaded', ['C10'], [
+    (PS, "        let info = self.with_metrics(|| self.database.basic_ref(address))?;\n        let account = match info {\n            None => CacheAccountInfo::new(None, AccountStatus::LoadedNotExisting),\n            Some(acc) if acc.is_empty() => CacheAccountInfo::new(\n                Some(AccountInfo::default()),\n                AccountStatus::LoadedEmptyEIP161,\n            ),\n            Some(acc) => CacheAccountInfo::new(Some(acc), AccountStatus::Loaded),\n        };\n        match self.cache.accounts.entry(address) {\n            Entry::Vacant(entry) => Ok(entry.insert(account).account.clone()),", "        let info = self.with_metrics(|| self.database.basic_ref(address))?;\n        let account = match info {\n            None => CacheAccountInfo::new(None, AccountStatus::LoadedNotExisting),\n            Some(acc) => CacheAccountInfo::new(Some(acc), AccountStatus::Loaded),\n        };\n        match self.cache.accounts.entry(address) {\n            Entry::Vacant(entry) => Ok(entry.insert(account).account.clone()),"),
+], ['|T4|'])
+mutant('T4-storage-known-ignores-missing-account', ['C10'], [
+    (PS, "                account.status.is_storage_known() || account.account.is_none()", "                account.status.is_storage_known()"),
+], ['|T4|'])
